@@ -323,10 +323,15 @@ class allencahn_front_semiimplicit(allencahn_front_fullyimplicit):
         """
 
         me = self.dtype_u(self.init)
-        self.uext[0] = 0.0
-        self.uext[-1] = 0.0
-        self.uext[1:-1] = rhs[:]
-        me[:] = spsolve(sp.eye(self.nvars + 2, format='csc') - factor * self.A, self.uext)[1:-1]
+
+        # the boundary values of the front (same as in eval_f) enter the linear system for the inner points on the right-hand side
+        v = 3.0 * np.sqrt(2) * self.eps * self.dw
+        self.uext[0] = 0.5 * (1 + np.tanh((self.interval[0] - v * t) / (np.sqrt(2) * self.eps)))
+        self.uext[-1] = 0.5 * (1 + np.tanh((self.interval[1] - v * t) / (np.sqrt(2) * self.eps)))
+        self.uext[1:-1] = 0.0
+        bc = self.A.dot(self.uext)[1:-1]
+
+        me[:] = spsolve(sp.eye(self.nvars, format='csc') - factor * self.A[1:-1, 1:-1], rhs + factor * bc)
         return me
 
 
